@@ -85,6 +85,36 @@ ROLE = {  # vtable slot -> allowed thunks (generic ones must be instantiated at 
 }
 
 
+def _touches_arg(g, idx):
+    """does the body of g read through / cast / pass on its idx-th argument?"""
+    for b in sorted(g.reachable()):
+        for st in g.stmts(b):
+            if st['k'] == 'assign':
+                r = st['r']
+                ops = []
+                if r['k'] in ('use', 'cast', 'repeat'):
+                    ops = [r['o']]
+                elif r['k'] in ('binop', 'cbinop'):
+                    ops = [r['a'], r['b']]
+                elif r['k'] == 'agg':
+                    ops = r['ops']
+                elif r['k'] in ('ref', 'rawptr', 'discr', 'len'):
+                    if r['p']['l'] == idx:
+                        return True
+                for o in ops:
+                    if o.get('k') in ('copy', 'move') and o['p']['l'] == idx:
+                        return True
+        t = g.term(b)
+        if t['k'] == 'call':
+            for o in t['args']:
+                if o.get('k') in ('copy', 'move') and o['p']['l'] == idx:
+                    return True
+    return False
+
+
+_VDROP_NULLCHECK = None
+
+
 def r2_vtables(ctx):
     ctx.set_rule('C16.R2')
     P = ctx.P
@@ -110,12 +140,21 @@ def r2_vtables(ctx):
             while t[0] == 'cast':
                 t = t[2]
             ok = False
-            if t[0] == 'fnitem' and name in ROLE:
+            if t[0] == 'fnitem' and name in ROLE and t[1] in ROLE[name]:
                 want = ROLE[name].get(t[1])
                 if want is True:
                     ok = list(t[2]) == ['T']
                 elif want is False:
                     ok = True
+            elif t[0] == 'fnitem':
+                # slot or thunk not in the pinned table (renamed / std function used directly): the slot types are pairwise different, so
+                # the type checker fixes the role; what remains to decide is that a thunk which interprets the erased pointer is
+                # instantiated at this vtable's own T, and that a non-generic thunk never looks at the pointer
+                if list(t[2]) == ['T']:
+                    ok = True
+                elif not t[2]:
+                    g = P.fns.get(t[1])
+                    ok = g is not None and not _touches_arg(g, 1)
             ctx.check(ok, 'vtable-slot:%s:%s' % (f.key.split('::')[-1], name), 'slot `%s` of %s holds the thunk of its role, instantiated at T' % (name, short(f.key)), f.where(), show(t))
     ctors = [f for f in P.fn_list if f.key.startswith(BODY + '::new') and f.kind == 'assocfn']
     ctx.floor('Body constructors', len(ctors), 4)
@@ -138,7 +177,9 @@ def r2_vtables(ctx):
             atoms = [a for _, a in fd.guard_atoms(fr[0].b)]
             nulls = [a for a in atoms if a[0] == 'bool' and a[1][0] == 'call' and a[1][1].endswith('::is_null')]
             others = [a for a in atoms if a not in nulls]
-            ctx.check(len(nulls) == 1 and nulls[0][2] is False and not others, 'vdrop-iff-nonnull',
+            global _VDROP_NULLCHECK
+            _VDROP_NULLCHECK = len(nulls) == 1 and nulls[0][2] is False
+            ctx.check(len(nulls) <= 1 and all(a[2] is False for a in nulls) and not others, 'vdrop-iff-nonnull',
                       'the drop thunk destroys the boxed value whenever the pointer is non-null — no other condition (e.g. on the size of T) may skip a destructor',
                       fr[0].where(), [show_atom(a) for a in atoms])
             dropped = any(s.name == 'std::mem::drop' for s in fd.calls()) or any(fd.term(b)['k'] == 'drop' and 'Box<T>' in fd.term(b)['ty'] for b in fd.reachable())
@@ -186,13 +227,22 @@ def r3_drop_once(ctx):
     if fd:
         ind = [b for b in fd.reachable() if fd.term(b)['k'] == 'call' and not fd.term(b).get('callee')]
         ok = False
+        body_null = False
         for b in ind:
             t = fd.term(b)
             fn_t = fd.expr_operand(t['f'], b, 'T')
             arg = fd.expr_operand(t['args'][0], b, 'T') if t['args'] else ('unknown',)
-            if any(x[0] == 'field' and x[2] == 'drop' for x in walk(fn_t)) and any(x[0] == 'field' and x[2] == 'data' for x in walk(arg)):
+            if any(x[0] == 'field' and x[2] == 'vtable' for x in walk(fn_t)) and any(x[0] == 'field' and x[2] == 'data' for x in walk(arg)):
                 ok = all(fd.dominates(b, r) for r in fd.return_blocks())
-        ctx.check(ok, 'body-drop-calls-vtable', "Body::drop unconditionally calls the vtable's drop thunk on its data pointer", fd.where())
+                if not ok:
+                    # guarded by the null test of the data pointer only (the test may sit here instead of in the thunk)
+                    atoms = [a for _, a in fd.guard_atoms(b)]
+                    nul = [a for a in atoms if a[0] == 'bool' and a[1][0] == 'call' and a[1][1].endswith('::is_null') and any(x[0] == 'field' and x[2] == 'data' for x in walk(a[1]))]
+                    ok = len(nul) == 1 and nul[0][2] is False and len([a for a in atoms if a[0] in ('bool', 'cmp', 'is')]) == 1
+                    body_null = ok
+        ctx.check(ok, 'body-drop-calls-vtable', "Body::drop calls the vtable's drop thunk on its data pointer whenever that pointer is non-null (no other condition)", fd.where())
+        ctx.check(bool(_VDROP_NULLCHECK) or body_null, 'null-pointer-skipped', 'a null data pointer (value moved out by try_cast) is never handed to Box::from_raw: Body::drop or the drop thunk tests it', fd.where(),
+                  {'thunk_tests_null': bool(_VDROP_NULLCHECK), 'body_drop_tests_null': body_null})
     fcl = ctx.anchor(BODY + '::try_clone')
     if fcl:
         clo = ctx.P.closures_of(fcl)
@@ -204,7 +254,9 @@ def r3_drop_once(ctx):
                     d = dict(zip(t[3], t[2]))
                     dt = peel(d['data'])
                     # the cloned pointer: the closure's parameter (Option::map form) or the Some payload of the vtable call (match form)
-                    from_clone = (g is not fcl and dt[0] == 'arg') or (g is fcl and dt[0] == 'field' and any(x[0] == 'callind' and any(y[0] == 'field' and y[2] == 'try_clone' for y in walk(x[1])) for x in walk(dt)))
+                    # ... obtained from an indirect call through a slot of this body's vtable on this body's data pointer
+                    via_vtable = lambda x: x[0] == 'callind' and any(y[0] == 'field' and y[2] == 'vtable' for y in walk(x[1])) and any(y[0] == 'field' and y[2] == 'data' for a_ in x[2] for y in walk(a_))
+                    from_clone = (g is not fcl and dt[0] == 'arg') or (g is fcl and any(via_vtable(x) for x in walk(dt)))
                     ok = from_clone and any(x[0] == 'field' and x[2] == 'vtable' for x in walk(d['vtable'])) and any(x[0] == 'field' and x[2] == 'length' for x in walk(d['length']))
         ctx.check(ok, 'clone-shares-vtable-and-length', 'a cloned body owns the cloned value and keeps the vtable and the declared length', fcl.where())
 
@@ -307,6 +359,15 @@ def r7_set_content_and_clone(ctx):
     ctx.set_rule('C16.R4')
     P = ctx.P
     M = 'des::net::message::Message'
+    sb = P.fns.get(M + '::set_body')
+    if sb is not None:
+        okb = False
+        for path, outcome, decs in fn_paths(ctx, sb):
+            if outcome != 'return':
+                continue
+            ws = [e for e in path_effects(sb, path) if e[0] == 'w' and e[2] == 'content']
+            okb = len(ws) == 1 and ws[0][4] is not None and peel(ws[0][4])[0] == 'agg' and str(peel(ws[0][4])[1]).endswith('Option::Some') and peel(peel(ws[0][4])[2][0])[0] == 'arg'
+        ctx.check(okb, 'set_body-installs', 'Message::set_body replaces the content by exactly the body it is given', sb.where())
     # every setter measures the NEW value: the content field is (re)assigned Some(Body::new*(value)) on every path
     for m, ctor in (('set_content', 'new'), ('set_content_non_clonable', 'new_non_clonable'), ('set_content_non_debugable', 'new_non_debugable')):
         f = P.fns.get(M + '::' + m)
@@ -320,9 +381,10 @@ def r7_set_content_and_clone(ctx):
             n += 1
             effs = path_effects(f, path)
             ws = [e for e in effs if e[0] == 'w' and e[2] == 'content']
-            ok = len(ws) == 1
+            via = [e for e in effs if e[0] == 'c' and e[1].name == M + '::set_body']
+            ok = len(ws) + len(via) == 1
             if ok:
-                v = ws[0][4]
+                v = ws[0][4] if ws else via[0][2][1]     # the stored value / the body handed to Message::set_body (checked below)
                 bn = [x for x in walk(v)] if v else []
                 calls = [x for x in bn if x[0] == 'call' and x[1] == BODY + '::' + ctor]
                 ok = bool(calls) and peel(calls[0][2][0])[0] == 'arg'
